@@ -219,7 +219,14 @@ class Array(Base):
         return tuple(self._maybe_array(a) for a in args)
 
     def _extract_arrays_from_kwargs(self, kwargs):
-        return {key: self._extract_arrays_from_args(a) for key, a in kwargs.items()}
+        return {
+            key: (
+                self._extract_arrays_from_args(a)
+                if isinstance(a, tuple)
+                else self._maybe_array(a)
+            )
+            for key, a in kwargs.items()
+        }
 
     def _maybe_unit(self, arg):
         if hasattr(arg, "unit"):
@@ -251,8 +258,10 @@ class Array(Base):
                 unit = self.unit
 
         if "out" in kwargs:
-            kwargs["out"][0].unit = unit
-            return kwargs["out"][0]
+            out = kwargs["out"]
+            out = out[0] if isinstance(out, tuple) else out
+            out.unit = unit
+            return out
         else:
             return self.__class__(values=result, unit=unit)
 
